@@ -153,3 +153,62 @@ Example realizable_as_nonvacuous :
                 [mkAS 9 15 [] []] [77;65;75;82] = true /\
   realizable ex_input2 [77;65;75;82] = false.
 Proof. vm_compute. split; reflexivity. Qed.
+
+(* the reduction: with the transcript written A ++ Mid ++ B and D the donor segment, the haplotype sequence of
+   the derived linear input (records of the donor moved by |A|, records behind the event moved by |A| + |D|)
+   IS the transcript carrying the small records and the AS record as one substitution [|A|, |A|+|Mid|) := D(hd) *)
+From MoPep Require Import Model.SpecCirc Proofs.SpecCircProofs.
+Theorem as_reduction : forall (A Mid B D : seq) h1 hd hB M,
+  chain 0 h1 (zlen A) -> chain 0 hd (zlen D) -> chain 0 hB M ->
+  apply_hap (A ++ D ++ B) (h1 ++ map (move (zlen A)) (hd ++ map (move (zlen D)) hB)) =
+  apply_hap (A ++ Mid ++ B)
+            (h1 ++ map (move (zlen A)) (mkVar 0 (zlen Mid) (apply_hap D hd) true :: map (move (zlen Mid)) hB)).
+Proof. exact as_reduction_lemma. Qed.
+Print Assumptions as_reduction.
+
+Theorem as_decompose : forall x r, as_ok x r = true ->
+  let A := firstn (Z.to_nat (a_s r)) (in_tx x) in
+  let Mid := slice (in_tx x) (a_s r) (a_e r) in
+  let B := skipn (Z.to_nat (a_e r)) (in_tx x) in
+  in_tx x = A ++ Mid ++ B /\ zlen A = a_s r /\ zlen A + zlen Mid = a_e r /\
+  in_tx (as_apply x r) = A ++ a_donor r ++ B.
+Proof. exact as_decompose_lemma. Qed.
+Print Assumptions as_decompose.
+
+(* ---- circRNA records (Model/SpecCirc.v) ---- *)
+(* backbone = four turns of the concatenated fragments *)
+Theorem circ_backbone : forall l c, in_tx (circ_linear l c) = four (circ_turn (c_gene c) (c_frags c)).
+Proof. exact circ_backbone_lemma. Qed.
+Print Assumptions circ_backbone.
+
+(* carrying the same records in each of the four copies = four copies of the circle carrying them *)
+Theorem circ_copies : forall (t : seq) h, chain 0 h (zlen t) ->
+  apply_hap (four t) (copies4 (zlen t) h) = four (apply_hap t h).
+Proof. exact circ_copies_lemma. Qed.
+Print Assumptions circ_copies.
+
+(* the decider is the statement: the empty set or a non-empty pairwise compatible set h of the records lying
+   inside a fragment, carried in every copy; some ATG of the haplotype sequence; p a digestion product of that
+   translation (Met-removed form permitted), the open last peptide of a translation that runs off the fourth
+   copy excluded *)
+Theorem realizable_circ_iff : forall c p,
+  realizable_circ c p = true <->
+  exists h, (h = [] \/ exists m, length m = length (circ_vars true c) /\ h = select m (circ_vars true c) /\
+                               nonempty h = true /\ pairwise false h = true) /\
+            CircProduct false c h p.
+Proof. exact realizable_circ_iff_lemma. Qed.
+Print Assumptions realizable_circ_iff.
+
+(* Non-vacuity: the circle ATGGCTAAAGGTTGGCGT (18 nt, no stop codon: translation goes round and round) gives
+   GWRMAK across the back-splice junction (k = 1); the circle ATGGCTGGTTGG has neither a stop codon nor a
+   cleavage site: its only "peptide" is the open end after four turns, which is not a product *)
+Definition ex_circ : circ_in :=
+  mkCircIn [65;84;71; 71;67;84; 65;65;65; 71;71;84; 84;71;71; 67;71;84] [(0, 18)] []
+           [mkAlt [] (CIn [75; 82]) [CNotIn [80]]] None (mkLimits 1 0 3 30) [].
+Definition ex_circ2 : circ_in :=
+  mkCircIn [65;84;71; 71;67;84; 71;71;84; 84;71;71] [(0, 12)] []
+           [mkAlt [] (CIn [75; 82]) [CNotIn [80]]] None (mkLimits 1 0 3 30) [].
+Example realizable_circ_nonvacuous :
+  realizable_circ ex_circ [71;87;82;77;65;75] = true /\
+  realizable_circ ex_circ2 [77;65;71;87; 77;65;71;87; 77;65;71;87; 77;65;71;87] = false.
+Proof. vm_compute. split; reflexivity. Qed.
